@@ -278,3 +278,39 @@ package wal
 //@   assigns av(w.s).refCount, av(w.s).finalizer, g_obs_last
 //@   ensures[C14.last-closed] w.closed != 0 ==> result1 == types.ErrClosed
 //@   ensures[C05.last-view] w.closed == 0 ==> result1 == nil && result0 == LastOf(av(w.s))
+
+// ---------------------------------------------------------------------------
+// options.go / wal.go — configuration, stable store, closed flag
+// ---------------------------------------------------------------------------
+
+//@ func (*WAL).applyDefaultsAndValidate
+//@   props C12
+//@   assigns w.log, w.codec, w.sf, w.metrics, w.metaDB, w.segmentSize
+//@   ensures[C12.reserved-codec-id] old(w.codec) != nil && old(w.codec.codecID) < FirstExternalCodecID ==> result != nil
+//@   ensures result == nil ==> w.codec != nil && w.sf != nil && w.metrics != nil && w.metaDB != nil
+//@   ensures[C12.custom-codec-kept] result == nil && old(w.codec) != nil ==> w.codec == old(w.codec)
+
+//@ func (*WAL).newSegment
+//@   props C12 C13
+//@   requires w.codec != nil
+//@   ensures[C12.codec-recorded] result.Codec == w.codec.codecID
+//@   ensures[C13.newsegment-fields] result.ID == ID && result.BaseIndex == baseIndex && result.MinIndex == baseIndex && result.MaxIndex == 0 && result.IndexStart == 0 && iszero(result.SealTime)
+
+//@ func (*WAL).checkClosed
+//@   props C14
+//@   ensures[C14.closed-flag] (w.closed != 0 ==> result == types.ErrClosed) && (w.closed == 0 ==> result == nil)
+
+//@ func (*WAL).Set
+//@   props C08 C14
+//@   requires w.metrics != nil && w.metaDB != nil
+//@   ensures[C14.set-closed] w.closed != 0 ==> result == types.ErrClosed
+
+//@ func (*WAL).Get
+//@   props C08 C14
+//@   requires w.metrics != nil && w.metaDB != nil
+//@   ensures[C14.get-closed] w.closed != 0 ==> result1 == types.ErrClosed && result0 == nil
+
+//@ func (*WAL).GetUint64
+//@   props C08
+//@   requires w.metrics != nil && w.metaDB != nil
+//@   ensures true
